@@ -407,6 +407,7 @@ class Observer:
         self.allowed_roots = ()
         self.events = []  # forbidden events seen while armed
         self.safeeval_sites = set()  # (relpath, lineno) of callers of ast.literal_eval fed a marked source
+        self.case_sites = set()  # same, since the last arm()
         self.lib_root = None
         self.sentinel_sites = set()
 
@@ -414,6 +415,7 @@ class Observer:
         self.armed = True
         self.allowed_roots = tuple(os.path.realpath(r) + os.sep for r in allowed_roots)
         self.events = []
+        self.case_sites = set()
 
     def disarm(self):
         self.armed = False
@@ -441,7 +443,7 @@ class Observer:
         while f is not None:
             fn = f.f_code.co_filename
             if self.lib_root and fn.startswith(self.lib_root):
-                return (os.path.relpath(fn, self.lib_root), f.f_lineno, f.f_code.co_name)
+                return (os.path.relpath(fn, self.lib_root), f.f_lineno, getattr(f.f_code, "co_qualname", f.f_code.co_name))
             f = f.f_back
         return None
 
@@ -478,6 +480,7 @@ class Observer:
                     c = self._lib_caller()
                     if c is not None:
                         self.safeeval_sites.add((c[0], c[1]))
+                        self.case_sites.add((c[0], c[1]))
             elif event == "exec":
                 code = args[0]
                 if hasattr(code, "co_consts") and self._code_has_mark(code):
@@ -497,6 +500,8 @@ class Observer:
                     c = self._lib_caller()
                     self.events.append(("write-outside", "%s:%s" % (c[0], c[2]) if c else "?", repr(path)[:200]))
             elif event in ("os.mkdir", "os.remove", "os.rmdir", "os.rename", "os.truncate", "os.link", "os.symlink", "os.chmod", "os.chown", "shutil.rmtree", "shutil.move", "shutil.copyfile", "shutil.copytree"):
+                if any(isinstance(a, int) and not isinstance(a, bool) and a >= 0 for a in args[1:] if event.startswith("os.") and event not in ("os.mkdir", "os.chmod", "os.chown", "os.truncate")) or (event == "os.mkdir" and len(args) > 2 and isinstance(args[2], int) and args[2] >= 0):
+                    return  # dir_fd-relative call made inside shutil.rmtree etc.; the enclosing event is judged
                 paths = [a for a in args[:2] if isinstance(a, (str, bytes)) or hasattr(a, "__fspath__")]
                 if event in ("shutil.copyfile", "shutil.copytree", "os.link", "os.symlink"):
                     paths = paths[1:2]  # destination only
